@@ -299,7 +299,7 @@ class CallMixin:
             if fn_ is not None:
                 s2.uses.add("A-WITH")
                 s2.assume(fn_(old, new, addr_))
-        if self.spec is not None and hasattr(self.spec, "extra_rely") and callee is None:
+        if self.spec is not None and hasattr(self.spec, "extra_rely"):
             import inspect
             er = self.spec.extra_rely
             clauses = er(self, st, anchor) if len(inspect.signature(er).parameters) >= 3 else er(self, st)
